@@ -11,6 +11,8 @@ EXPLANATION = (
     "the hash iterator and rows its k. R08-lower-bounds: under the function's asserts (epsilon > 0, 0 < delta < 1) both are >= 1."
     " R08-double-hashing (as R07). The sketch's clear() is checked with C19's rules incl. `clear must not change w, d or the hasher`."
 )
+from .common import NEW_WRITERS_NOTE as _NWN
+EXPLANATION = EXPLANATION + _NWN % "08"
 NOT_DECIDED = "whether enhanced double hashing makes the d rows independent enough to deliver delta — an empirical property of the hash family"
 ASSUMPTIONS = ["real-number semantics for f64"]
 
@@ -18,6 +20,8 @@ CMS = "countminsketch::CountMinSketch"
 
 
 def run(ctx):
+    from .common import check_new_writers
+    check_new_writers(ctx, "R08-new-writers", ['countminsketch::CountMinSketch'])
     prog = ctx.prog
     f = ctx.anchor(CMS + "::with_point_query_properties_and_hasher")
     ctor = ctx.anchor(CMS + "::with_params_and_hasher")
